@@ -3,7 +3,7 @@ CONSTANTS
   ParamSets <- ParamsT
   UsedVals <- UsedT
   StartPrices <- PricesT
-  PriceCap = 60
+  PriceCap = 40
   MaxLen = 2
   NewParams <- NoParams
 INIT Init
